@@ -11,6 +11,7 @@ shard watchdog are backstops only.
 """
 
 import asyncio
+import os
 import faulthandler
 import resource
 import tracemalloc
@@ -398,6 +399,10 @@ def usm_field_edits(t9):
             usm[field] = v
             out = {"msg_id": t9.msg["msg_id"], "max_size": 65507, "flags": t9.msg["flags"], "sec_model": 3, "usm": usm, "scoped": (t9.engine, t9.ctx_name, pdu)}
             yield "usm-%s-%d" % (field, v if abs(v) < 2**64 else 2**64), ber.enc_v3_message(out)
+    for name, raw in usm_retagged(base):
+        for flags in (t9.msg["flags"], 0):
+            out = {"msg_id": t9.msg["msg_id"], "max_size": 65507, "flags": flags, "sec_model": 3, "usm_raw": raw, "scoped": (t9.engine, t9.ctx_name, pdu)}
+            yield "%s-flags%d" % (name, flags), ber.enc_v3_message(out)
     for key, vals in (("msg_id", (0, -1, 2**31, 2**200)), ("max_size", (0, -1, 483, 2**40)), ("sec_model", (0, 1, 2, 4, -1, 2**31)), ("flags", (0, 2, 6, 7, 8, 0xFF))):
         for v in vals:
             out = {"msg_id": t9.msg["msg_id"], "max_size": 65507, "flags": t9.msg["flags"], "sec_model": 3, "usm": dict(base), "scoped": (t9.engine, t9.ctx_name, pdu)}
@@ -409,6 +414,27 @@ def usm_field_edits(t9):
 
 
 BIG_INTS = (0, -1, 2**31 - 1, 2**31, 2**32, -(2**31), 2**63, 2**64, 2**70, -(2**70), 2**200, 2**2000)
+
+
+RETAG_CONTENTS = (b"\x7f", b"\x08\x00\x00\x00", b"\x7f\xff\xff\xff", b"\x00\x80\x00\x00\x00", b"\x7f\xff\xff\xff\xff\xff\xff", b"\xff", b"")
+
+
+def usm_retagged(base):
+    """USM parameter blocks in which ONE field carries another tag (INTEGER, NULL, a
+    SEQUENCE, an application tag) with a short content: a length or a count read from a
+    sender-chosen integer must not size an allocation or a loop."""
+    order = ("engine_id", "boots", "time", "user", "auth", "priv")
+
+    def enc(field, val):
+        return ber.enc_integer(val) if field in ("boots", "time") else ber.enc_octets(val)
+
+    for field in order:
+        for tag in (0x02, 0x04, 0x05, 0x30, 0x41, 0x46):
+            for content in RETAG_CONTENTS:
+                if (tag == 0x04 and field not in ("boots", "time")) or (tag == 0x02 and field in ("boots", "time")):
+                    continue
+                parts = [ber.tlv(tag, content) if f == field else enc(f, base[f]) for f in order]
+                yield "usm-%s-retagged-%02x-%s" % (field, tag, content.hex() or "empty"), ber.tlv(0x30, b"".join(parts))
 
 
 def discovery_field_edits(t):
@@ -452,6 +478,9 @@ def discovery_field_edits(t):
     for n in (0, 1, 5, 32, 1000):
         yield "disco-ctx-engine-len%d" % n, build(ctx=(b"\x80" * n, sc["ctx_name"]))
         yield "disco-ctx-name-len%d" % n, build(ctx=(sc["ctx_engine"], b"n" * n))
+    for name, raw in usm_retagged(base):
+        out = {"msg_id": m["msg_id"], "max_size": m["max_size"], "flags": m["flags"], "sec_model": 3, "usm_raw": raw, "scoped": (sc["ctx_engine"], sc["ctx_name"], sc["pdu"])}
+        yield "disco-" + name, ber.enc_v3_message(out)
     yield "disco-no-bindings", build(pdu=dict(pdu, varbinds=[]))
     yield "disco-many-bindings", build(pdu=dict(pdu, varbinds=list(pdu["varbinds"]) * 200))
 
@@ -542,6 +571,78 @@ def run_case(R, t, kind, pos, data, variant):
         R.samples.append({k: case[k] for k in ("level", "mode", "fault", "pos", "variant", "len", "datagram")} | {"outcome": outcome if outcome != "exc" else repr(val)[:100], "steps": steps, "heap_peak": peak}) if len(R.samples) < 6 else None
 
 
+def memory_soak(R):
+    """Thousands of datagrams through ONE long-lived client (valid answers, refused ones,
+    reports): what the library itself keeps allocated must not grow with their number.
+    Only allocations made in /repo/src or in the BER library are counted (the rig's own
+    records are cleared and not attributed)."""
+    import gc
+
+    from .. import privxf
+
+    site = os.path.dirname(os.path.dirname(__import__("x690").__file__))
+
+    def lib_bytes():
+        snap = tracemalloc.take_snapshot().filter_traces([tracemalloc.Filter(True, os.path.join(rig.env.SRC, "*")), tracemalloc.Filter(True, os.path.join(site, "x690", "*"))])
+        return sum(st.size for st in snap.statistics("filename"))
+
+    n = 400 if R.tier == "quick" else 12000
+    for level in (("v2c", "v3-sha1-priv") if R.tier == "quick" else ("v2c", "v3-md5", "v3-sha1-priv")):
+        w = World(level, DB)
+        w.prime()
+        agent = w.agent
+        bad = bytes(bytearray(w.seam.responses[-1] if w.seam.responses else b"\x30\x00"))
+
+        def one(i):
+            w.seam.reset(budget=20)
+            agent.requests.clear()
+            privxf.CALLS.clear()
+            if i % 5 == 4:
+                # an answer that will be refused (damaged copy of a real response), then a
+                # good exchange
+                state = {"n": 0}
+
+                def responder(req):
+                    state["n"] += 1
+                    good = agent.handle(req)
+                    if state["n"] == 1 and good:
+                        d = bytearray(good)
+                        d[len(d) // 2] ^= 0x5A ^ (i & 0xFF)
+                        return bytes(d)
+                    return good
+
+                w.set_responder(responder)
+                try:
+                    drive(w.client.get(OID(K[0])))
+                except Exception:  # noqa: BLE001
+                    pass
+                finally:
+                    w.set_responder(agent.handle)
+            elif i % 5 == 3:
+                drive_agen(w.client.walk(OID((1, 3, 6, 1, 2, 1, 1))), limit=50)
+            else:
+                drive(w.client.multiget([OID(k) for k in K[: 1 + i % 4]]))
+
+        for i in range(120):
+            one(i)
+        gc.collect()
+        base = lib_bytes()
+        for i in range(n):
+            one(i)
+        gc.collect()
+        grown = lib_bytes() - base
+        R.evaluations += n
+        R.mon["soak_exchanges"] += n
+        R.notes["soak_growth_bytes_%s" % level] = grown
+        R.fingerprints.add("%s/soak" % level)
+        # a list/dict/cache that gains one small entry per datagram costs >= 60 bytes each
+        if grown > 8192 + 16 * n:
+            R.violation({"level": level, "mode": "soak", "fault": "%d exchanges on one client" % n, "pos": 0, "variant": "agent", "datagram": "len:0", "len": 0},
+                        "memory attributed to the library grew by %d bytes over %d exchanges on one client (%.0f bytes per exchange)" % (grown, n, grown / n), None)
+        else:
+            R.mon["soak_levels_flat"] += 1
+
+
 def latched_agents(R):
     """An engine whose boots counter is latched at 2^31-1 answers EVERY authenticated
     request with an authentic notInTimeWindow report (RFC 3414 3.2 (7a)): each datagram
@@ -598,6 +699,8 @@ def run(R):
     quick = R.tier == "quick"
     if R.shard == 1 % R.nshards:
         latched_agents(R)
+    if R.shard == 2 % R.nshards:
+        memory_soak(R)
     rng = R.rng("bombs")
     streams = []
     targets = []
@@ -684,6 +787,10 @@ def run(R):
 def replay(R, v):
     c = v["case"]
     install_localiser()
+    if c.get("mode") == "soak":
+        if calibrate(R):
+            memory_soak(R)
+        return
     if c.get("mode") == "latched-engine":
         if calibrate(R):
             latched_agents(R)
